@@ -350,3 +350,53 @@ add(
       "same with 3 slots", "fixed-buffer build", build="noalloc", timeout=900),
     twin("dir::verif::twin_lnb_always_yields_name", ["C17", "C19"], "claims a one-slot run is always accepted", "len() > 0", build="noalloc"),
 )
+
+# alloc-build long-name decoder: broken patterns, 20-slot bound, buffer contract
+for nm, pat in (("gap", "[0x43,0x01]"), ("incomplete3", "[0x43,0x02,0x02]"), ("longer_then_shorter", "[0x43,0x41,0x00]"), ("no_last_flag", "[0x02,0x01]")):
+    add(H("dir::verif::lnb_pattern_" + nm, ["C17", "C19"],
+          "alloc build: broken long-name run with order bytes %s => empty name (short-name fallback); same oracle as lnb_sequences_*" % pat,
+          "concrete order pattern; checksums, units, short name symbolic"))
+add(
+    H("dir::verif::lnb_twenty_slots", ["C17"],
+      "alloc build: a complete 20-slot run (orders 0x54,19..1) never yields more than 255 units",
+      "concrete orders, symbolic units/checksum/short name; unwind 264", tier="thorough", timeout=2400),
+    H("dir::verif::lfn_buffer_contract", ["C19", "C17"],
+      "alloc build: Vec-backed LfnBuffer: set_len keeps the prefix and zero-fills growth, len/as_ucs2_units agree, clear empties, from_ucs2_units copies",
+      "sizes 0/13/26/5 concrete, contents symbolic"),
+    twin("dir::verif::twin_lnb_always_yields_name", ["C17"], "claims a one-slot run is always accepted (alloc build)", "len() > 0"),
+    H("dir::verif::lfn_checksum_spec", ["C16", "C03", "C17"], "lfn_checksum == the specification's rotate-and-add checksum", "all 2^88 short names"),
+    H("dir::verif::split_path_spec", ["C15"],
+      "split_path == reference: surrounding slashes stripped, split at the first inner slash", "every path of <= 6 bytes over {'/','a','.'}; memchr stubs", stubs=True),
+    H("dir::verif::validate_name_chars", ["C15"],
+      "validate_long_name accepts exactly the non-empty strings whose characters are all in the documented set; error kind as documented; no panic",
+      "every valid UTF-8 string of <= 4 bytes (all BMP code points as a single character, astral ones rejected)"),
+    H("dir::verif::validate_name_len_small", ["C15"], "accepted iff length >= 1", "every length 0..=12 (symbolic)"),
+)
+for n, ok in (("0", "rejected"), ("1", "accepted"), ("255", "accepted"), ("256", "rejected"), ("300", "rejected")):
+    add(H("dir::verif::validate_name_len_" + n, ["C15"], "a %s-byte name is %s (name-length error when rejected)" % (n, ok), "concrete length " + n))
+for nm, what in (("alias_is_legal", "generate(): every byte of the alias is legal (upper case/digits/allowed punctuation, no leading/embedded space, no dot, not 0xE5/0x00); "
+                  "failure only when all 13 numeric tails are taken"),
+                 ("alias_never_equals_existing", "after add_existing(e) (any 11 bytes) generate() never returns e; bitmaps only grow (uniqueness by induction over the directory scan)"),
+                 ("alias_retry_progress", "next_iteration changes only the hash (+1) and clears both bitmaps; generation then succeeds; u16_to_hex is exact upper-case hex")):
+    add(H("dir::verif::" + nm, ["C16"], what,
+          "every name accepted by validate_long_name of 1..=5 bytes (incl. multi-byte), every collision state (bitmaps, exact-match flag, hash); memchr stubs",
+          stubs=True, timeout=1800),
+        H("dir::verif::" + nm + "_8bytes", ["C16"], what, "same with names of 1..=8 bytes", stubs=True, tier="thorough", timeout=7200))
+add(twin("dir::verif::twin_alias_generate_never_fails", ["C16"], "claims alias generation can never fail", "is_ok()", stubs=True))
+
+# ------------------------------------------------------------------ single-fault injection above the table level (C09)
+FAULT_FS = ("FileSystem/File value built directly over the windowed device, concrete 8-entry table and concrete operation arguments; symbolic fault "
+            "position k over ALL device calls (seek/read/write/flush) of the operation; device-call budget 120; CBMC path mode")
+for n, what in (("fault_fs_alloc12", "alloc_cluster(zeroing)"), ("fault_fs_alloc32", "alloc_cluster(zeroing)"), ("fault_fs_free16", "free_cluster_chain"),
+                ("fault_fs_truncate12", "truncate_cluster_chain"), ("fault_fs_truncate32", "truncate_cluster_chain"), ("fault_fs_stats16", "stats() recount"),
+                ("fault_fs_status_flags32", "read_status_flags"), ("fault_fs_flush_info32", "flush_fs_info"), ("fault_fs_unmount32", "unmount"),
+                ("fault_fs_unmount16", "unmount"), ("fault_fs_set_dirty12", "set_dirty_flag")):
+    add(H("fs::verif::" + n, ["C09"], "single fault at the k-th device call of FileSystem::%s => Error::Io(device error); no fault => success; terminates" % what,
+          FAULT_FS, mode="path"))
+add(twin("fs::verif::twin_fault_fs_alloc_always_ok", ["C09"], "claims alloc_cluster succeeds at every fault position", "is_ok()", mode="path"))
+for n, what in (("fault_file_read16", "read starting on a cluster boundary"), ("fault_file_write_alloc12", "write that allocates a cluster"),
+                ("fault_file_write_alloc32", "write that allocates a cluster"), ("fault_file_write_mid16", "write inside the file"),
+                ("fault_file_seek12", "seek over two clusters"), ("fault_file_truncate16", "truncate"), ("fault_file_flush32", "flush with pending metadata"),
+                ("fault_file_extents16", "extents iteration")):
+    add(H("file::verif::" + n, ["C09"], "single fault at the k-th device call of File %s => Error::Io(device error); no fault => success; terminates" % what,
+          FAULT_FS, mode="path"))
